@@ -526,7 +526,7 @@ def execute(spec):
     # 3. in-repository Python reference (a sample, moderate tolerance)
     if not spec.get("only_schedules"):
         pyref = None
-        if driver in PY_LANG and not (driver == "ddm" and (a["compact"] or ph.nac_params is not None)):
+        if driver in PY_LANG and not (driver == "ddm" and (a["compact"] or (ph.nac_params is not None and ph.nac_params.get("method") != "wang"))):
             E.use("serial")
             st2 = dict(st, lang="Py")
             for k in ("d2f_dm", "d2f_q"):
